@@ -57,6 +57,57 @@ def h_exact_interrupted(ctx, n, rho, how, after, nswp=2):
     ctx.claim('info_r_is_erank_of_result', ctx.eq(info['r'], teneva.erank(Y)))
 
 
+def h_interrupted_growing(ctx, n, rho, how, after, nswp=2):
+    """Rank growth 1/1 from a rank-1 start, interrupted after `after` oracle
+    batches (in the backward half-sweep a bond has just grown and its pending
+    factor is folded into the neighbouring core on return): info describes the
+    tensor that is returned."""
+    T = ctx.tt('t', n, rho)
+    Y0 = simple_Y0(n, 1)
+    ref = Oracle(ctx, target=T)
+    with stubs_installed(ctx, 'first'):
+        teneva.cross(ref, Y0, nswp=1 if after <= 2 * len(n) else nswp, dr_min=1, dr_max=1, info={})
+    sizes = [len(B) for B in ref.batches]
+    info = {}
+    if how == 'm':
+        orc = Oracle(ctx, target=T)
+        kw = {'m': sum(sizes[:after])}
+    else:
+        orc = Oracle(ctx, target=T, none_at=ctx.const(after + 1) if is_sym(ctx) else after + 1)
+        kw = {}
+    with stubs_installed(ctx, 'first'):
+        Y = teneva.cross(orc, Y0, nswp=nswp, dr_min=1, dr_max=1, info=info, **kw)
+    ctx.claim('interrupted_where_intended', info['stop'] == ('m' if how == 'm' else 'func') and
+              len(orc.batches) == (after if how == 'm' else after + 1))
+    ctx.claim('well_formed_same_shape', well_formed(Y, n))
+    ctx.claim('finite', finite(ctx, Y))
+    ctx.claim('info_r_is_erank_of_result', ctx.eq(info['r'], teneva.erank(Y)))
+    ctx.claim('info_m_counts_answered_requests', info['m'] == sum(sizes[:after]))
+
+
+def h_concrete_growth_real_maxvol(ctx):
+    """Real code end to end (the symbolic instances replace the maxvol dispatcher
+    by its contract, so a dispatcher that silently refuses to grow is invisible
+    to them): rank growth 1/1 from a start one rank short, on shapes whose
+    unfoldings have exactly one free row (all mode sizes 2, or the target rank
+    equal to the mode size), with and without cache.  Fixed seeds."""
+    ok_exact, ok_ranks = True, True
+    for n, rho, r0 in [([2, 2], 2, 1), ([2, 2, 2], 2, 1), ([2, 2, 2, 2], 2, 1), ([4, 4], 4, 3), ([3, 3], 3, 2),
+                       ([2, 3, 2], 2, 1), ([3, 2, 3], 2, 1)]:
+        for seed in range(3):
+            T = teneva.rand(n, rho, seed=seed)
+            F = teneva.full(T)
+            f = lambda I: np.array([F[tuple(i)] for i in I])
+            for with_cache in (False, True):
+                Y = teneva.cross(f, teneva.rand(n, r0, seed=100 + seed), nswp=6, dr_min=1, dr_max=1,
+                                 cache={} if with_cache else None, info={})
+                err = np.linalg.norm(teneva.full(Y) - F) / np.linalg.norm(F)
+                ok_exact = ok_exact and bool(err <= 1e-8)
+                ok_ranks = ok_ranks and [G.shape[1] for G in Y] == n
+    ctx.claim('reproduces_target_after_growth_to_rho', ok_exact)
+    ctx.claim('shape_kept', ok_ranks)
+
+
 def _maxrank(n, k):
     left = int(np.prod(n[:k + 1]))
     right = int(np.prod(n[k + 1:]))
@@ -170,6 +221,14 @@ def instances(tier):
             for after in range(2 * len(n) + 1, 4 * len(n)):
                 out.append({'func': 'h_exact_interrupted', 'params': {'n': n, 'rho': rho, 'how': how, 'after': after, 'nswp': 3},
                             'opts': G})
+    # growing ranks, interrupted at every request of the first sweep and the first of the second
+    for n, rho in [([3, 3], 3), ([2, 3, 2], 2)]:
+        for how in ('m', 'func'):
+            for after in range(1, 2 * len(n) + 1):
+                if quick and (after < len(n) or (len(n) == 3 and (how, after) not in (('m', 5), ('func', 4)))):
+                    continue
+                out.append({'func': 'h_interrupted_growing', 'params': {'n': n, 'rho': rho, 'how': how, 'after': after}, 'opts': G})
+    out.append({'func': 'h_concrete_growth_real_maxvol', 'params': {}, 'opts': {'concrete_only': True}})
     out.append({'func': 'h_info', 'params': {'n': [2, 2], 'rho': 1}, 'opts': G})
     for which in ('e_vld_on_interrupt', 'cache_with_budget'):
         out.append({'func': 'h_interrupted_info', 'params': {'which': which}, 'opts': G})
